@@ -283,6 +283,7 @@ def run(chk):
     relative_targets(chk, rng, work)
     linked_sources(chk, rng, work)
     directory_targets(chk, rng, work)
+    copy_during_a_session(chk, rng, work)
     # independence of a copy under the full container engine: mutate the copy, then the original
     from basictdf import Tdf
     for j in range(5 if chk.tier == "quick" else 60):
@@ -505,6 +506,48 @@ def directory_targets(chk, rng, work):
             found = "%s onto an existing directory %s" % (call, "succeeded" if rc == 0 else "raised error %d, not FileExistsError" % rc)
         if found:
             chk.violation("C17: %s [%s]" % (found, what["scenario"]), what, True)
+            return
+
+
+def copy_during_a_session(chk, rng, work):
+    """copy() called INSIDE an open session of the object, after the file was changed through another object (a helper with
+    its own write session) — and after the object itself read / did not read from the file: the copy is the file as it
+    is at the time of the call, byte for byte"""
+    from basictdf import Tdf
+    from basictdf.tdfBlock import BlockType
+    from harness import container
+    d = os.path.join(work, "insession")
+    for j in range(12 if chk.tier == "quick" else 80):
+        shutil.rmtree(d, ignore_errors=True)
+        os.makedirs(d)
+        src, dst = os.path.join(d, "walk.tdf"), os.path.join(d, "copy.tdf")
+        n = (3, 8, 14)[j % 3]
+        ev = container.small_block("EV", rng, 1)
+        m = ev.as_model()
+        container.craft_file(src, n, [(m[0], m[1], bytes(m[3][0]), container.T0, container.T0, container.T0, "events")])
+        ev2, em = container.small_block("EV", rng, 1), container.small_block("EM", rng, 1)
+        chk.note_case(("copy during a session", n, j), True)
+        chk.count("copy() inside a session after another object changed the file")
+        what = {"scenario": "%d-slot file; with r: [%s] helper replaces events / adds EMG through its own object; r.copy(target)" % (n, "r reads a block; " if j % 2 else "")}
+        try:
+            r = Tdf(src)
+            with r:
+                if j % 2:
+                    r.get_block(BlockType.temporalEventsData)
+                with Tdf(src).allow_write() as w:
+                    if j % 4 < 2:
+                        w.replace_block(ev2.build(), "changed meanwhile")
+                    w.add_block(em.build())
+                now = open(src, "rb").read()
+                r.copy(dst)
+            got = open(dst, "rb").read()
+        except Exception as e:
+            chk.violation("C17: %s fails: %s" % (what["scenario"], common.exc_info(e)), what, True)
+            return
+        if got != now:
+            k = next((i for i, (x, y) in enumerate(zip(got, now)) if x != y), min(len(got), len(now)))
+            chk.violation("C17: the copy differs from the source as it was when copy() was called (first difference at byte %d, %d vs %d bytes) [%s]" %
+                          (k, len(got), len(now), what["scenario"]), what, True)
             return
 
 
